@@ -360,6 +360,7 @@ type Call struct {
 	Done chan struct{}
 	Msg  *mangos.Message
 	Err  error
+	End  time.Time // when the call returned
 }
 
 func (c *Call) Finished() bool {
@@ -385,6 +386,7 @@ func GoRecv(ctx mangos.ProtocolContext) *Call {
 	c := &Call{Kind: "recv", Done: make(chan struct{})}
 	go func() {
 		c.Msg, c.Err = ctx.RecvMsg()
+		c.End = time.Now()
 		close(c.Done)
 	}()
 	return c
@@ -398,6 +400,7 @@ func GoSend(ctx mangos.ProtocolContext, hdr, body []byte) *Call {
 	c.Msg = m
 	go func() {
 		c.Err = ctx.SendMsg(m)
+		c.End = time.Now()
 		close(c.Done)
 	}()
 	return c
